@@ -124,6 +124,18 @@ Theorem C07_dt_formula currDT bounds psd g d maxRatio :
 Proof. exact (getDT_spec currDT bounds psd g d maxRatio). Qed.
 Print Assumptions C07_dt_formula.
 
+(* the dissolution index: first class whose cumulative third moment exceeds the allowed fraction of
+   the total (0 if none), but at least the supplied minimum index *)
+Theorem C07_dissolution_index sz psd maxDiss minIndex :
+  let cum := cumMomentFromN Rops sz psd 3 in
+  let frac := maxDiss * momentFromN Rops sz psd 3 in
+  exists i, dissolutionIndex Rops sz psd maxDiss minIndex = Nat.max i minIndex /\
+    (forall j, (j < i)%nat -> (j < length cum)%nat -> nthR cum j <= frac) /\
+    ((exists k, (k < length cum)%nat /\ frac < nthR cum k) -> (i < length cum)%nat /\ frac < nthR cum i) /\
+    ((forall k, (k < length cum)%nat -> nthR cum k <= frac) -> i = 0%nat).
+Proof. exact (dissolutionIndex_spec sz psd maxDiss minIndex). Qed.
+Print Assumptions C07_dissolution_index.
+
 (* The executable (exact-rational) instance used by the correspondence check computes the value of
    the real-number model on rational inputs (class widths non-zero): *)
 From Coq Require Import QArith Qreals.
